@@ -1,6 +1,6 @@
 (* C13 property theorems. *)
 From Coq Require Import ZArith List Bool.
-From PV Require Import Model.EventMgr Spec.C13 Proofs.C13Facts.
+From PV Require Import Model.EventMgr Spec.C13 Proofs.C13Facts Proofs.C13MonFacts.
 Import ListNotations.
 
 Theorem C13_once : C13_once_statement.
@@ -18,6 +18,11 @@ Print Assumptions C13_unsubscribe.
 Theorem C13_getter : C13_getter_statement.
 Proof. exact C13Facts.C13_getter. Qed.
 Print Assumptions C13_getter.
+
+(* order, value threading, once-wrappers, store, wake, getters and timeouts together: every log satisfies the monitor *)
+Theorem C13_monitor : C13_monitor_statement.
+Proof. exact C13MonFacts.C13_monitor. Qed.
+Print Assumptions C13_monitor.
 
 (* the D15 history: callbacks [slow; once], two overlapping dispatches: once is awaited once,
    and the whole log satisfies the monitor *)
